@@ -37,6 +37,9 @@ type alt struct {
 // unfoldHook is installed by the engine: it unfolds an App piece one level.
 var unfoldHook func(p Piece) ([]alt, bool)
 
+// validHook is installed by the engine: is the condition valid under the current path condition?
+var validHook func(c *Term) bool
+
 func (p Piece) String() string {
 	switch p.K {
 	case "lit":
@@ -283,8 +286,12 @@ func matchT(a, b []Piece, depth int) *Term {
 		fmt.Printf("  matchT d=%d  %s  ||  %s\n", depth, abbrev(textString(a)), abbrev(textString(b)))
 	}
 	if x.K == "app" || y.K == "app" {
-		if x.K == "app" && y.K == "app" && x.S == y.S && termsEq(x.Args, y.Args).IsTrue() {
-			return matchT(a[1:], b[1:], depth+1)
+		if x.K == "app" && y.K == "app" && x.S == y.S {
+			te := termsEq(x.Args, y.Args)
+			// same abstract text applied to arguments that are equal on this path: no unfolding needed
+			if te.IsTrue() || (validHook != nil && !te.IsFalse() && validHook(te)) {
+				return matchT(a[1:], b[1:], depth+1)
+			}
 		}
 		// unfold the right-hand App first (the goal side), else the left one
 		if y.K == "app" && unfoldHook != nil && depth < 40 {
@@ -348,7 +355,7 @@ func matchT(a, b []Piece, depth int) *Term {
 			}
 			if !same.IsTrue() {
 				// a copy is as good as a window: same contents, byte for byte
-				k := Sym(fresh("k"), 64)
+				k := BoundVar(fresh("k"), 64)
 				ext := Forall(k, Implies(And(SLe(BVu(0, 64), k), SLt(k, x.Len)),
 					Eq(Select(x.Arr, Add(x.Off, k), 8), Select(y.Arr, Add(y.Off, k), 8))))
 				same = Or(same, ext)
